@@ -146,7 +146,27 @@ class Impl:
             self.trace.append(("step", i, args, out, list(m.rec), before, self.snapshot()))
             return f"{out} log={self.fmt(m.rec)} || {self.all()}"
         if k == "run":
-            m.run_model()
+            # generated programs terminate on the correct code; the cap makes them terminate on ANY code
+            # (a run_model that keeps stepping a stopped model must show as a failure, not hang the check)
+            orig, calls = m.step, [0]
+
+            def capped(*a, **kw):
+                calls[0] += 1
+                if calls[0] > 200:
+                    raise RuntimeError("runaway run_model")
+                return orig(*a, **kw)
+
+            m.step = capped
+            try:
+                m.run_model()
+            except RuntimeError as e:
+                if "runaway" not in str(e):
+                    raise
+                m.step = orig
+                self.trace.append(("runaway", i, before))
+                return f"err Runaway || {self.all()}"
+            finally:
+                m.step = orig
             self.trace.append(("run", i, list(m.rec), before, self.snapshot()))
             return f"ok log={self.fmt(m.rec)} || {self.all()}"
         if k == "rearm":
@@ -293,6 +313,10 @@ def oracle(sc, obs):
         k = ev[0]
         if k == "new":
             levels_of[ev[1]] = ev[2]
+            continue
+        if k == "runaway":
+            running0 = ev[2][ev[1]][1]
+            bad.append(f"run: run_model on model {ev[1]} (running={running0} when called) was still stepping after 200 calls")
             continue
         i = ev[1]
         before, after = ev[-2], ev[-1]
